@@ -467,6 +467,11 @@ class ConcreteWorld(WorldBase):
     def uf(self, fname, args, sort='real'):
         n = self.fresh_n.get('@' + fname, 0)
         self.fresh_n['@' + fname] = n + 1
+        if getattr(self, 'strict_uf', False) and \
+                '%s@%d' % (fname, n) not in self.model:
+            # a call the symbolic path never made: the run left that path
+            raise ReplayMismatch('call %d of %s has no value on the '
+                                 'explored path' % (n, fname))
         return self._val('%s@%d' % (fname, n), sort)
 
     def concrete_int(self, v):
